@@ -94,7 +94,13 @@ func suiteSchedule(g *gen, e *emitter, n int) {
 				break
 			}
 		}
-		switch g.n(4) {
+		choice := g.n(4)
+		if i < 16 {
+			// the first sixteen cases cover {to passthrough, to another configuration} x {non-CORS GET, non-CORS OPTIONS,
+			// actual request, preflight} deterministically (both orders of a and b)
+			choice = i % 2
+		}
+		switch choice {
 		case 0:
 			b = nil // to passthrough
 		default:
@@ -106,7 +112,7 @@ func suiteSchedule(g *gen, e *emitter, n int) {
 				}
 			}
 		}
-		if g.p(15) {
+		if (i >= 16 && g.p(15)) || (i < 16 && i >= 8 && b != nil) {
 			a, b = b, a // from passthrough
 		}
 		d0 := g.p(50)
@@ -115,6 +121,25 @@ func suiteSchedule(g *gen, e *emitter, n int) {
 			src = b
 		}
 		rq := g.request(src)
+		if i < 16 {
+			org := "https://example.com"
+			for _, o := range src.Origins {
+				if o != "*" {
+					org = g.probesFor(o)[0]
+					break
+				}
+			}
+			switch (i / 2) % 4 {
+			case 0:
+				rq = request{method: "GET"}
+			case 1:
+				rq = request{method: "OPTIONS"}
+			case 2:
+				rq = request{method: "GET", hdrs: []kv{{"Origin", []string{org}}}}
+			default:
+				rq = request{method: "OPTIONS", hdrs: []kv{{"Origin", []string{org}}, {"Access-Control-Request-Method", []string{"PUT"}}}}
+			}
+		}
 		for point := 0; point < 3; point++ {
 			for op := 0; op < 3; op++ {
 				m := new(cors.Middleware)
